@@ -49,6 +49,7 @@ MonInit(c) ==
       inET    |-> {},
       etdeps  |-> [l \in Labels(c) |-> <<>>],
       active  |-> 0,
+      lastCap |-> -1,                            \* free slots at the last quiescent point (-1: not read)
       sawCyc  |-> FALSE,
       returned|-> FALSE,
       n       |-> 0,
@@ -80,7 +81,10 @@ LOCAL OnETReturn(e, m0) ==
         rs   == e.results
         n    == Len(rs)
         anyCyc == \E i \in 1..n : IsCyc(rs[i].err)
-        allCyc == n > 0 /\ \A i \in 1..n : IsCyc(rs[i].err) /\ rs[i].err = rs[1].err
+        \* an early return with the cyclic-dependency error in every slot is the reported outcome
+        \* of a requester that lies on a cycle; anywhere else the results must be the outcomes
+        allCyc == /\ n > 0 /\ \A i \in 1..n : IsCyc(rs[i].err) /\ rs[i].err = rs[1].err
+                  /\ e.l \in ReachPlus(m0.cfg, e.l)
         faithful(i) ==
             LET d == deps[i] IN
             /\ d \in Labels(m0.cfg)
@@ -113,8 +117,16 @@ LOCAL OnRunReturn(e, m0) ==
         m3 == VIf(m2, Cyclic(m0.cfg) /\ e.err = "", "C05", "cyclic graph built successfully", r)
     IN  VIf(m3, Cyclic(m0.cfg) /\ ~m0.sawCyc, "C05", "cycle not reported as a cyclic-dependency error", r)
 
-LOCAL OnGate(e, m0) ==
-    LET m1 == VIf(m0, e.cap < 0, "C09", "slot released more often than acquired (negative free count impossible)", "")
+\* every goroutine is blocked for good: none of them is executing, so a slot that is not free is
+\* held by a target that waits for its dependencies (or was lost) -- the limit-of-one clause of C09
+LOCAL OnDeadlock(e, m0) ==
+    LET m1 == V(m0, "C05", "deadlock: every goroutine blocked, build not finished", "")
+    IN  VIf(m1, m0.lastCap >= 0 /\ m0.active = 0 /\ m0.lastCap < m0.cfg.limit /\ ~Cyclic(m0.cfg),
+            "C09", "every target is waiting yet slots are held: waiting on dependencies holds a slot", "")
+
+LOCAL OnGate(e, m00) ==
+    LET m0 == [m00 EXCEPT !.lastCap = e.cap]
+        m1 == VIf(m0, e.cap < 0, "C09", "slot released more often than acquired (negative free count impossible)", "")
         m2 == VIf(m1, e.cap > m0.cfg.limit, "C09", "more free slots than the limit", "")
     IN  VIf(m2, e.cap >= 0 /\ e.cap + m0.active > m0.cfg.limit, "C09", "free slots plus active targets exceed the limit", "")
 
@@ -136,7 +148,7 @@ Mon(e, m0) ==
                      [] e.ev = "RunReturn" -> OnRunReturn(e, m0)
                      [] e.ev = "Gate"      -> OnGate(e, m0)
                      [] e.ev = "Final"     -> OnFinal(e, m0)
-                     [] e.ev = "Deadlock"  -> V(m0, "C05", "deadlock: every goroutine blocked, build not finished", "")
+                     [] e.ev = "Deadlock"  -> OnDeadlock(e, m0)
                      [] e.ev = "Hang"      -> V(m0, "C05", "build hangs", "")
                      [] OTHER              -> m0
     IN  [m1 EXCEPT !.n = @ + 1]
